@@ -116,6 +116,12 @@ Theorem C20_read_bitstring_roundtrip :
   /\ parse_bitstring (print_bitstring (rd s n)) = Ok (rd s n).
 Proof. exact read_bitstring_roundtrip. Qed.
 
+(* bits switched on behind the length with the exported On(n) -- since the
+   repair of ReadBits the public way to have junk there -- do not show *)
+Theorem C20_on_bitstring_roundtrip :
+  forall l tail : bits, print_bitstring_bs (on_bs l tail) = Ok (print_bitstring l).
+Proof. exact on_bitstring_roundtrip. Qed.
+
 (* cells: every cell of the domain HAS a JSON form -- relative to the
    serialiser being total on the domain (C01; the harness checks it at the
    limits: depth 1023/1024 and 255..257, 65535..65537 distinct cells) *)
